@@ -143,6 +143,12 @@ def unit_protocol_sweep():
             finally:
                 shutil.rmtree(tmp, ignore_errors=True)
         r2 = sweep("C20/protocol/a plug-in folder class resolves by class name (plain and dotted type) like a built-in", [0], plugin_check, "bounded", "one plug-in module imported with import_plugins in a subprocess", function="interface.import_plugins + Cid._create_class", unit="C20.protocol", props=["C20"])
+        return [r1, r2]
+    return NativeUnit("C20.protocol", "bounded stand-in with real recording plug-in classes: recorded call sequence vs the protocol's prediction; plug-in folder import", ["C20"], run, kind="bounded", timeout=1800)
+
+
+def unit_late_classes():
+    def run(ctx):
         # user classes resolve by name whenever they were defined: before or after other Cids were created, and after a plug-in import
         def late_check(order):
             import subprocess, sys, tempfile, shutil
@@ -163,6 +169,6 @@ def unit_protocol_sweep():
         orders = [("define",), ("cid", "define"), ("cid", "define", "cid"), ("plugins", "define"), ("cid", "plugins", "define"), ("define", "cid", "plugins"), ("cid", "plugins", "cid", "define", "cid")]
         r3 = sweep("C20/protocol/user classes resolve by class name whenever they are defined (before / after other Cids, after a plug-in import)", orders, late_check, "bounded",
                    "7 orders of {create a Cid, import a plug-in folder, define user classes} before the CID that names them is read (one subprocess each)", describe=lambda o: {"order": list(o)},
-                   function="interface.Cid.__init__ + _create_name_to_class_map + import_plugins", unit="C20.protocol", props=["C20"])
-        return [r1, r2, r3]
-    return NativeUnit("C20.protocol", "bounded stand-in with real recording plug-in classes: recorded call sequence vs the protocol's prediction; plug-in folder import", ["C20"], run, kind="bounded", timeout=1800)
+                   function="interface.Cid.__init__ + _create_name_to_class_map + import_plugins", unit="C20.late-classes")
+        return [r3]
+    return NativeUnit("C20.late-classes", "bounded: user classes resolve by class name whenever they are defined (before / after other Cids, after a plug-in import)", ["C20", "C09", "C17"], run, kind="bounded")
